@@ -240,6 +240,13 @@ class Exec(ExprMixin):
     def set_attr(self, o: SV, attr: str, v: SV, st: State):
         cls = o.cls if o.kind == 'ref' else (o.ty.cls if o.ty is not None else None)
         a = self.as_ref(o, st, 'store .' + attr)
+        if cls is None and o.kind == 'val' and attr in self.contract.recv_class:
+            # receiver without static class (e.g. memo[id(x)].f = ...): its class is proved here, not assumed
+            cls = self.contract.recv_class[attr]
+            fact = z3.And(is_VRef(o.t), a >= 0, a < st.h.alloc, st.h.cls(a) == class_id(cls))
+            self.oblige('type.receiver.%s#%d' % (attr, self._next_site()), st, fact, 'type',
+                        'the object receiving .%s is a %s' % (attr, cls))
+            st.assume(fact)
         ty = self.reg.schema.attr_type(cls, attr)
         if ty is None:
             raise Unsupported('attribute %s of %s not in schema' % (attr, cls))
